@@ -694,7 +694,7 @@ func p7apply(m *p7msg, a *p7alt) (der, given []byte, note string) {
 		given[a.pos] ^= a.mask
 		return der, given, fmt.Sprintf("supplied content byte %d xor %02x", a.pos, a.mask)
 	}
-	der = bytes.Clone(m.der)
+	der = Roomy(m.der, 512) // as read into a larger receive buffer
 	der[a.pos] ^= a.mask
 	return der, given, fmt.Sprintf("message byte %d of %d: %02x -> %02x", a.pos, len(m.der), m.der[a.pos], der[a.pos])
 }
